@@ -268,23 +268,34 @@ func (u *Universe) discoverTables() error {
 						if !ok || call.Call.StaticCallee() != reg {
 							continue
 						}
-						r := &Registration{Call: call, InInit: isInitFunc(fn)}
-						if c, ok := call.Call.Args[0].(*ssa.Const); ok && c.Value != nil {
-							r.KeyVal = c.Value
-							r.Key = c.Value.ExactString()
-						} else {
-							r.Key = "<non-constant>"
+						// the key: a constant, or an expression over the elements of a constant slice/array literal the call
+						// site loops over (one registration per element)
+						keys, okKeys := constSet(call.Call.Args[0], 0)
+						if !okKeys || len(keys) == 0 {
+							keys = []constant.Value{nil}
 						}
-						switch fv := call.Call.Args[1].(type) {
-						case *ssa.Function:
-							r.Closure = fv
-						case *ssa.MakeClosure:
-							r.Closure, _ = fv.Fn.(*ssa.Function)
+						for _, kv := range keys {
+							r := &Registration{Call: call, InInit: isInitFunc(fn)}
+							if kv != nil {
+								r.KeyVal = kv
+								r.Key = kv.ExactString()
+							} else {
+								r.Key = "<non-constant>"
+							}
+							switch fv := call.Call.Args[1].(type) {
+							case *ssa.Function:
+								r.Closure = fv
+							case *ssa.MakeClosure:
+								r.Closure, _ = fv.Fn.(*ssa.Function)
+								if len(fv.Bindings) > 0 {
+									r.Closure = nil // a factory that captures loop state is not a plain constructor
+								}
+							}
+							if r.Closure != nil {
+								r.Type, r.Fresh = u.factoryResult(r.Closure)
+							}
+							t.Regs = append(t.Regs, r)
 						}
-						if r.Closure != nil {
-							r.Type, r.Fresh = u.factoryResult(r.Closure)
-						}
-						t.Regs = append(t.Regs, r)
 					}
 				}
 			}
@@ -477,10 +488,35 @@ func (u *Universe) discoverServices() error {
 	// services: values of a pointer type with Algorithm() string and Calc(x) that an init function of the module turns
 	// into an interface value (to hand them to the registry – directly, through a slice literal, a loop, a helper …)
 	seen := map[*types.Named]bool{}
+	// start-up code: the init functions and the module functions they call (statically, transitively)
+	startup := map[*ssa.Function]bool{}
+	var work []*ssa.Function
 	for fn := range p.AllFuncs {
-		if !p.InModule(fn) || fn.Blocks == nil || p.IsTestFile(fn.Pos()) || !isInitFunc(fn) {
-			continue
+		if p.InModule(fn) && fn.Blocks != nil && !p.IsTestFile(fn.Pos()) && isInitFunc(fn) {
+			startup[fn] = true
+			work = append(work, fn)
 		}
+	}
+	for len(work) > 0 {
+		fn := work[len(work)-1]
+		work = work[:len(work)-1]
+		for _, b := range fn.Blocks {
+			for _, in := range b.Instrs {
+				if c, ok := in.(ssa.CallInstruction); ok {
+					if cal := c.Common().StaticCallee(); cal != nil && cal.Blocks != nil && p.InModule(cal) && !startup[cal] && !p.IsTestFile(cal.Pos()) {
+						startup[cal] = true
+						work = append(work, cal)
+					}
+				}
+			}
+		}
+	}
+	var fns []*ssa.Function
+	for fn := range startup {
+		fns = append(fns, fn)
+	}
+	sort.Slice(fns, func(i, j int) bool { return fns[i].String() < fns[j].String() })
+	for _, fn := range fns {
 		for _, b := range fn.Blocks {
 			for _, in := range b.Instrs {
 				mi, ok := in.(*ssa.MakeInterface)
@@ -512,6 +548,174 @@ func (u *Universe) discoverServices() error {
 	}
 	sort.Slice(u.Services, func(i, j int) bool { return u.Services[i].Type.Obj().Name() < u.Services[j].Type.Obj().Name() })
 	return nil
+}
+
+// constSet: the constant values v can take when it is a constant, an element of a local array/slice literal all of
+// whose elements are constants (the operand of a range loop), or +, -, * of such values with at most one operand taking
+// more than one value. ok=false when v is anything else.
+func constSet(v ssa.Value, depth int) ([]constant.Value, bool) {
+	if depth > 6 {
+		return nil, false
+	}
+	switch x := v.(type) {
+	case *ssa.Const:
+		if x.Value == nil {
+			return nil, false
+		}
+		return []constant.Value{x.Value}, true
+	case *ssa.ChangeType:
+		return constSet(x.X, depth+1)
+	case *ssa.Convert:
+		vals, ok := constSet(x.X, depth+1)
+		if !ok {
+			return nil, false
+		}
+		// only value-preserving conversions between integer types
+		b, isB := x.Type().Underlying().(*types.Basic)
+		if !isB || b.Info()&types.IsInteger == 0 {
+			return nil, false
+		}
+		for _, c := range vals {
+			if c.Kind() != constant.Int || !representable(c, b) {
+				return nil, false
+			}
+		}
+		return vals, true
+	case *ssa.BinOp:
+		var op token.Token
+		switch x.Op {
+		case token.ADD, token.SUB, token.MUL:
+			op = x.Op
+		default:
+			return nil, false
+		}
+		a, ok1 := constSet(x.X, depth+1)
+		b, ok2 := constSet(x.Y, depth+1)
+		if !ok1 || !ok2 || (len(a) > 1 && len(b) > 1) {
+			return nil, false
+		}
+		var out []constant.Value
+		for _, p := range a {
+			for _, q := range b {
+				if p.Kind() != constant.Int || q.Kind() != constant.Int {
+					return nil, false
+				}
+				r := constant.BinaryOp(p, op, q)
+				if bt, isB := x.Type().Underlying().(*types.Basic); !isB || !representable(r, bt) {
+					return nil, false // would wrap
+				}
+				out = append(out, r)
+			}
+		}
+		return out, true
+	case *ssa.UnOp:
+		if x.Op != token.MUL {
+			return nil, false
+		}
+		ia, ok := x.X.(*ssa.IndexAddr)
+		if !ok {
+			return nil, false
+		}
+		var al *ssa.Alloc
+		switch base := ia.X.(type) {
+		case *ssa.Slice:
+			if base.Low != nil || base.High != nil || base.Max != nil {
+				return nil, false
+			}
+			al, _ = base.X.(*ssa.Alloc)
+		case *ssa.Alloc:
+			al = base
+		}
+		if al == nil {
+			return nil, false
+		}
+		pt, ok := al.Type().Underlying().(*types.Pointer)
+		if !ok {
+			return nil, false
+		}
+		arr, ok := pt.Elem().Underlying().(*types.Array)
+		if !ok {
+			return nil, false
+		}
+		elems := map[int64]constant.Value{}
+		for _, r := range *al.Referrers() {
+			switch u := r.(type) {
+			case *ssa.Slice:
+				// only re-sliced whole and only read (indexed) or ranged over
+				for _, r2 := range *u.Referrers() {
+					switch r2.(type) {
+					case *ssa.IndexAddr, *ssa.DebugRef:
+					case *ssa.Call:
+						if b, ok := r2.(*ssa.Call).Call.Value.(*ssa.Builtin); !ok || b.Name() != "len" {
+							return nil, false
+						}
+					default:
+						return nil, false
+					}
+				}
+			case *ssa.DebugRef:
+			case *ssa.IndexAddr:
+				idx, isC := u.Index.(*ssa.Const)
+				if !isC {
+					// a read through a variable index: fine as long as nothing is stored through it
+					for _, r2 := range *u.Referrers() {
+						if _, isStore := r2.(*ssa.Store); isStore {
+							return nil, false
+						}
+					}
+					continue
+				}
+				i, _ := constant.Int64Val(constant.ToInt(idx.Value))
+				for _, r2 := range *u.Referrers() {
+					if st, isStore := r2.(*ssa.Store); isStore && st.Addr == u {
+						c, isC := st.Val.(*ssa.Const)
+						if !isC || c.Value == nil {
+							return nil, false
+						}
+						if _, dup := elems[i]; dup {
+							return nil, false
+						}
+						elems[i] = c.Value
+					}
+				}
+			default:
+				return nil, false
+			}
+		}
+		var out []constant.Value
+		for i := int64(0); i < arr.Len(); i++ {
+			c, ok := elems[i]
+			if !ok {
+				if b, isB := arr.Elem().Underlying().(*types.Basic); isB && b.Info()&types.IsString != 0 {
+					c = constant.MakeString("")
+				} else {
+					c = constant.MakeInt64(0)
+				}
+			}
+			out = append(out, c)
+		}
+		return out, len(out) > 0
+	}
+	return nil, false
+}
+
+func representable(c constant.Value, b *types.Basic) bool {
+	if c.Kind() != constant.Int {
+		return false
+	}
+	bits, _ := intBits(b)
+	if bits == 0 {
+		bits = 64
+	}
+	if b.Info()&types.IsUnsigned != 0 {
+		if constant.Sign(c) < 0 {
+			return false
+		}
+		lim := constant.Shift(constant.MakeInt64(1), token.SHL, uint(bits))
+		return constant.Compare(c, token.LSS, lim)
+	}
+	lim := constant.Shift(constant.MakeInt64(1), token.SHL, uint(bits-1))
+	return constant.Compare(c, token.LSS, lim) && constant.Compare(c, token.GEQ, constant.UnaryOp(token.SUB, lim, 0))
 }
 
 func constStringResult(fn *ssa.Function) string {
